@@ -110,6 +110,13 @@ pub fn worker_main(args: &[String]) -> i32 {
         let idx = start + j * stride;
         let ep = gen_episode(seed, idx);
         let r = run_episode(&ep, &pristine);
+        if r.hung {
+            // the stuck task threads cannot be recovered: hand over what we have and end this process
+            let _ = writeln!(out, "{{\"hang\":{}}}", idx);
+            let _ = writeln!(out, "{}", json!({"stats": ws}));
+            let _ = out.flush();
+            std::process::exit(3);
+        }
         let nontrivial = r.sched.switches_inside_op > 0 || r.sched.crashes > 0;
         let _ = writeln!(
             out,
@@ -120,7 +127,8 @@ pub fn worker_main(args: &[String]) -> i32 {
         if let Some(v) = &r.violation {
             let n = found.entry(v.class()).or_insert(0);
             if *n < 3 {
-                let _ = writeln!(out, "{}", json!({"found": {"violation": v, "episode": ep, "worker_start": start, "worker_stride": stride}}));
+                let variant = if cfg!(feature = "facade") { "facade" } else { "plain" };
+                let _ = writeln!(out, "{}", json!({"found": {"violation": v, "episode": ep, "worker_start": start, "worker_stride": stride, "variant": variant}}));
             }
             *n += 1;
         }
@@ -172,6 +180,10 @@ pub fn exec_main(args: &[String]) -> i32 {
     let mut viol: Option<(usize, Violation)> = None;
     for (i, ep) in episodes.iter().enumerate() {
         let r = run_episode(ep, &pristine);
+        if r.hung {
+            println!("{}", json!({"violation": null, "hang": ep.index, "results": results}));
+            std::process::exit(3);
+        }
         if let Some(vv) = &r.violation {
             viol = Some((i, vv.clone()));
         }
@@ -202,15 +214,32 @@ pub struct ExecOut {
 
 /// Runs an episode list in a fresh process.
 pub fn exec_fresh(episodes: &[Episode], pristine_path: &str) -> Result<ExecOut, String> {
+    exec_fresh_variant(episodes, pristine_path, &current_variant())
+}
+
+thread_local! {
+    static VARIANT: std::cell::RefCell<Option<String>> = const { std::cell::RefCell::new(None) };
+}
+
+/// The binary variant used for confirmation/minimisation of the violation at hand.
+pub fn set_current_variant(v: &str) {
+    VARIANT.with(|c| *c.borrow_mut() = Some(v.to_string()));
+}
+pub fn current_variant() -> String {
+    VARIANT.with(|c| c.borrow().clone()).unwrap_or_else(|| pool::variants()[0].0.clone())
+}
+
+pub fn exec_fresh_variant(episodes: &[Episode], pristine_path: &str, variant: &str) -> Result<ExecOut, String> {
     let dir = report::make_scratch("c14x");
     let f = dir.join("cand.json");
     std::fs::write(&f, serde_json::to_string(&json!({"episodes": episodes})).unwrap()).map_err(|e| e.to_string())?;
-    let outs = pool::run_children(&[vec![
-        "c14-exec".into(),
+    let argv = vec![
+        "c14-exec".to_string(),
         f.to_str().unwrap().to_string(),
         "--pristine".into(),
         pristine_path.to_string(),
-    ]]);
+    ];
+    let outs = pool::run_children_exes(&[pool::variant_exe(variant)], &[argv], 1);
     let _ = std::fs::remove_dir_all(&dir);
     let o = &outs[0];
     match o.code {
@@ -260,26 +289,64 @@ pub fn check_main(tier: Tier) -> i32 {
     let pristine_path = pristine_path.to_str().unwrap().to_string();
 
     let per = (episodes + w as u64 - 1) / w as u64;
-    let argvs: Vec<Vec<String>> = (0..w)
-        .map(|i| {
-            vec![
-                "c14-worker".to_string(),
-                "--seed".into(),
-                seed.to_string(),
-                "--start".into(),
-                i.to_string(),
-                "--stride".into(),
-                w.to_string(),
-                "--count".into(),
-                per.to_string(),
-                "--pristine".into(),
-                pristine_path.clone(),
-                "--max-secs".into(),
-                max_secs.to_string(),
-            ]
+    let variants = pool::variants();
+    println!("C14 harness variants: {:?}", variants.iter().map(|(n, _)| n.as_str()).collect::<Vec<_>>());
+    // worker i runs episodes i, i+w, i+2w, ... with binary variant i mod #variants. A worker whose
+    // episode hangs (a real blocking primitive under the baton) ends with code 3 and is restarted
+    // after the hung episode; hangs are recorded, never reported as violations.
+    let mut pending: Vec<(usize, u64, u64)> = (0..w).map(|i| (i, i as u64, per)).collect();
+    let mut outs: Vec<(usize, pool::WorkerOut)> = Vec::new();
+    let mut hung_episodes: Vec<u64> = Vec::new();
+    for _round in 0..4 {
+        if pending.is_empty() {
+            break;
+        }
+        let argvs: Vec<Vec<String>> = pending
+            .iter()
+            .map(|(_, start, count)| {
+                vec![
+                    "c14-worker".to_string(),
+                    "--seed".into(),
+                    seed.to_string(),
+                    "--start".into(),
+                    start.to_string(),
+                    "--stride".into(),
+                    w.to_string(),
+                    "--count".into(),
+                    count.to_string(),
+                    "--pristine".into(),
+                    pristine_path.clone(),
+                    "--max-secs".into(),
+                    max_secs.to_string(),
+                ]
+            })
+            .collect();
+        let exes: Vec<std::path::PathBuf> = pending.iter().map(|(i, _, _)| variants[i % variants.len()].1.clone()).collect();
+        let round_outs = pool::run_children_exes(&exes, &argvs, w);
+        let mut next: Vec<(usize, u64, u64)> = Vec::new();
+        for ((i, start, count), o) in pending.iter().zip(round_outs.into_iter()) {
+            if o.code == Some(3) {
+                if let Some(h) = o.lines.iter().find(|l| l.starts_with("{\"hang\"")).and_then(|l| serde_json::from_str::<Value>(l).ok()).and_then(|v| v["hang"].as_u64()) {
+                    hung_episodes.push(h);
+                    let done = (h - start) / w as u64 + 1;
+                    if count - done > 0 {
+                        next.push((*i, h + w as u64, count - done));
+                    }
+                }
+            }
+            outs.push((*i, o));
+        }
+        pending = next;
+    }
+    let outs: Vec<pool::WorkerOut> = outs
+        .into_iter()
+        .map(|(_, mut o)| {
+            if o.code == Some(3) {
+                o.code = Some(0);
+            }
+            o
         })
         .collect();
-    let outs = pool::run_children(&argvs);
 
     let mut ws = WorkerStats::default();
     let mut found: Vec<Value> = Vec::new();
@@ -353,6 +420,8 @@ pub fn check_main(tier: Tier) -> i32 {
             continue;
         }
         attempted += 1;
+        let variant = f["variant"].as_str().unwrap_or("plain").to_string();
+        set_current_variant(&variant);
         // 1. alone in a fresh process
         let mut episodes_list = vec![ep.clone()];
         let mut confirmed = matches!(exec_fresh(&episodes_list, &pristine_path), Ok(ExecOut { violation: Some(ref c), .. }) if c.class() == v.class());
@@ -413,6 +482,7 @@ pub fn check_main(tier: Tier) -> i32 {
         let replay = json!({
             "property": "C14",
             "engine": "fqsim-c14",
+            "variant": variant,
             "verif_seed": seed,
             "run_index": ep.index,
             "episodes": min_eps,
@@ -530,6 +600,9 @@ pub fn check_main(tier: Tier) -> i32 {
         "combined_run_hash": format!("{:016x}", combined),
         "miri_leg": miri,
         "stopped_by_time_cap": ws.stopped_by_time_cap,
+        "harness_variants": variants.iter().map(|(n, _)| n.clone()).collect::<Vec<_>>(),
+        "hung_episodes_skipped": hung_episodes,
+        "sync_facade": {"sync_points": ws.sched.sync_points, "blocked_yields": ws.sched.blocked_yields, "note": "the facade variant is fast_qr compiled against /verif/facade (std/core re-exported, sync primitives and atomics are scheduling points); on a tree without shared state both counters are 0"},
         "real_vs_stub": {
             "real": ["fast_qr QRBuilder/QRCode/SvgBuilder/ImageBuilder/to_str through the public API", "resvg/usvg/tiny-skia/png", "real OS threads (one runnable at a time)"],
             "stub": ["nothing is stubbed; the only addition is the feature-gated verif_point! seam that yields to the scheduler or unwinds"]
@@ -655,6 +728,9 @@ pub fn replay_main(path: &str) -> i32 {
     };
     let pp = scratch.join("pristine.json");
     std::fs::write(&pp, serde_json::to_string(&pristine).unwrap()).expect("write pristine");
+    if let Some(vn) = v["variant"].as_str() {
+        set_current_variant(vn);
+    }
     let r = exec_fresh(&episodes, pp.to_str().unwrap());
     let _ = std::fs::remove_dir_all(&scratch);
     match r {
